@@ -1132,7 +1132,9 @@ func directiveSecRuleUpdateTargetByID(options *DirectiveOptions) error {
 			if err != nil {
 				return err
 			}
-			return updateTargetBySingleID(id, variables, options)
+			if err := updateTargetBySingleID(id, variables, options); err != nil && (length == 2 || options.WAF.Rules.FindByID(id) != nil) {
+				return err
+			}
 		} else {
 			if idx == 0 {
 				return fmt.Errorf("SecRuleUpdateTargetById: invalid negative id: %s", idOrRange)
@@ -1147,16 +1149,21 @@ func directiveSecRuleUpdateTargetByID(options *DirectiveOptions) error {
 				return err
 			}
 			if start == end {
-				return updateTargetBySingleID(start, variables, options)
+				if err := updateTargetBySingleID(start, variables, options); err != nil {
+					return err
+				}
+				continue
 			}
 			if start > end {
 				return fmt.Errorf("invalid range: %s", idOrRange)
 			}
 
-			for _, rule := range options.WAF.Rules.GetRules() {
+			rules := options.WAF.Rules.GetRules()
+			for i := range rules {
+				rule := &rules[i]
 				if rule.ID_ >= start && rule.ID_ <= end {
 					rp := RuleParser{
-						rule: &rule,
+						rule: rule,
 						options: RuleOptions{
 							WAF: options.WAF,
 						},
@@ -1229,7 +1236,9 @@ func directiveSecRuleUpdateActionByID(options *DirectiveOptions) error {
 			if err != nil {
 				return err
 			}
-			return updateActionBySingleID(id, actions, options)
+			if err := updateActionBySingleID(id, actions, options); err != nil && (idsOrRangesLen == 2 || options.WAF.Rules.FindByID(id) != nil) {
+				return err
+			}
 		} else {
 			if idx == 0 {
 				return fmt.Errorf("SecRuleUpdateActionById: invalid negative id: %s", idOrRange)
@@ -1244,7 +1253,10 @@ func directiveSecRuleUpdateActionByID(options *DirectiveOptions) error {
 				return err
 			}
 			if start == end {
-				return updateActionBySingleID(start, actions, options)
+				if err := updateActionBySingleID(start, actions, options); err != nil {
+					return err
+				}
+				continue
 			}
 			if start > end {
 				return fmt.Errorf("invalid range: %s", idOrRange)
@@ -1342,11 +1354,13 @@ func directiveSecRuleUpdateTargetByTag(options *DirectiveOptions) error {
 		return errors.New("syntax error: SecRuleUpdateTargetByTag tag \"VARIABLES\"")
 	}
 
-	for _, rule := range options.WAF.Rules.GetRules() {
+	rules := options.WAF.Rules.GetRules()
+	for i := range rules {
+		rule := &rules[i]
 		inputTag := strings.Trim(tagAndvars[0], "\"")
 		if utils.InSlice(inputTag, rule.Tags_) {
 			rp := RuleParser{
-				rule: &rule,
+				rule: rule,
 				options: RuleOptions{
 					WAF: options.WAF,
 				},
